@@ -20,6 +20,7 @@ type Sorts struct {
 	strLits map[string]string
 	fltLits map[string]string
 	nfresh  int
+	nameOwner map[string]string
 }
 
 type structInfo struct {
@@ -175,10 +176,10 @@ func (s *Sorts) sortOf(t types.Type) string {
 	case *types.Slice:
 		r = "Slice"
 	case *types.Array:
-		r = "A_" + shortTypeName(t)
+		r = s.uniqueName("A_"+shortTypeName(t), k)
 		s.declareSort(r)
 	case *types.Struct:
-		name := "S_" + shortTypeName(t)
+		name := s.uniqueName("S_"+shortTypeName(t), k)
 		if _, named := t.(*types.Named); !named {
 			name = "S_anon_" + shortHash(k)
 		}
@@ -205,6 +206,24 @@ func (s *Sorts) sortOf(t types.Type) string {
 	}
 	s.byType[k] = r
 	return r
+}
+
+// typeName is a unique mangled name of a Go type, used to name heap components.
+func (s *Sorts) typeName(t types.Type) string {
+	t = types.Unalias(t)
+	return s.uniqueName("T_"+shortTypeName(t), "type:"+typeKey(t))[2:]
+}
+
+// uniqueName keeps sort names distinct when two packages share a name.
+func (s *Sorts) uniqueName(name, key string) string {
+	if s.nameOwner == nil {
+		s.nameOwner = map[string]string{}
+	}
+	if o, ok := s.nameOwner[name]; ok && o != key {
+		name = name + "_" + shortHash(key)
+	}
+	s.nameOwner[name] = key
+	return name
 }
 
 func (s *Sorts) selName(sort string, i int) string {
@@ -243,7 +262,18 @@ func (s *Sorts) zeroOfSort(so string) string {
 	if strings.HasPrefix(so, "(Array ") {
 		// const array of zero of the range sort
 		_, rng := splitArraySort(so)
-		return fmt.Sprintf("((as const %s) %s)", so, s.zeroOfSort(rng))
+		z := s.zeroOfSort(rng)
+		if strings.Contains(z, "zero_") {
+			// not a value for the solvers' (as const ...): use an axiomatised constant array
+			n := "zarr_" + mangle(so)
+			if !s.declSeen[n] {
+				s.declare(n, so)
+				dom, _ := splitArraySort(so)
+				s.decls = append(s.decls, fmt.Sprintf("(assert (forall ((q!z %s)) (! (= (select %s q!z) %s) :pattern ((select %s q!z)))))", dom, n, z, n))
+			}
+			return n
+		}
+		return fmt.Sprintf("((as const %s) %s)", so, z)
 	}
 	return "zero_" + so
 }
